@@ -215,10 +215,7 @@ func C07(c *Ctx) {
 		if okv != nil {
 			assume[okv] = true
 		}
-		q := PathQuery{From: g.(ssa.Instruction), Assume: assume, Cut: Or(c.isStateOp("del", "cookie", rm), c.isStateOp("put", "session", uid)), Goal: func(i ssa.Instruction) bool {
-			ret, ok := i.(*ssa.Return)
-			return ok && !c.isErrorExit(ret)
-		}}
+		q := PathQuery{From: g.(ssa.Instruction), Assume: assume, Cut: Or(c.isStateOp("del", "cookie", rm), c.isStateOp("put", "session", uid)), GoalP: c.nonErrorReturn}
 		if p := q.Find(); p != nil {
 			r.Bad("C07.delete-unusable", an, "return nil", posf(c, p[len(p)-1]), "a cookie was presented, nobody was authenticated, no error is reported, and the cookie is not deleted from the client", c.P.DescribePath(p)...)
 		} else {
@@ -535,10 +532,7 @@ func (c *Ctx) oauthParamsReset(rule string) {
 		for _, op := range c.StateOps(st) {
 			if op.Op == "put" && op.Store == "session" && op.Key == stateKey {
 				n++
-				q := PathQuery{From: op.Call.(ssa.Instruction), Cut: Or(c.isStateOp("put", "session", paramsKey), c.isStateOp("del", "session", paramsKey)), Goal: func(i ssa.Instruction) bool {
-					ret, ok := i.(*ssa.Return)
-					return ok && !c.isErrorExit(ret)
-				}}
+				q := PathQuery{From: op.Call.(ssa.Instruction), Cut: Or(c.isStateOp("put", "session", paramsKey), c.isStateOp("del", "session", paramsKey)), GoalP: c.nonErrorReturn}
 				if p := q.Find(); p != nil {
 					r.Bad(rule, FuncName(st), "PutSession(oauth2_state)=>Put|Del(oauth2_params)", posf(c, op.Call), "a new OAuth2 flow can start without overwriting or deleting the pass-along parameters of an earlier flow: a stale rm=true would issue a remember cookie nobody asked for", c.P.DescribePath(p)...)
 				} else {
